@@ -13,8 +13,8 @@ from . import c02, driver, evm_ref as E, pool, report, families, spec_eval as SE
 from . import sm_search
 
 GATE_ONLY = set()  # option sets that only contribute the size-gating figure (quick tier: -size with rules off)
-GATE_NODE_CAP = 6000
-GATE_MAX_LEN = 7  # size gating is decided by explicit-state search on blocks of at most this many instructions
+GATE_NODE_CAP = 2000
+GATE_MAX_LEN = 5  # size gating is decided by explicit-state search on blocks of at most this many instructions
 
 NAME = c02.NAME
 
@@ -61,7 +61,7 @@ def min_bytes(ctx, block, specs):
     bounds that depend on the block only (so that the rules-on and rules-off figures are comparable)."""
     from .c07 import weights
     push0 = "-push0" not in ctx.cfg
-    L, H = len(block) + 2, peak_height(block) + 1
+    L, H = len(block) + 1, peak_height(block) + 1
     total = states = 0
     for key in sorted(specs):
         r = sm_search.search(specs[key], L, H, weights(specs[key], "size", push0), node_cap=GATE_NODE_CAP)
@@ -199,8 +199,8 @@ def main(tier, seed, only=None):
                            "rules": on["rules"], "shape": ""})
     chk.cov["size_gating"] = dict(g, search_states=tot["gate_states"], rule=(
         "blocks of <= %d instructions yielding one specification: fewest bytes of any realizing sequence (explicit-"
-        "state uniform-cost search, independent byte weights, bounds len(block)+2 / peak+1) with rules on must not "
-        "exceed the figure with rules off under -size" % GATE_MAX_LEN))
+        "state uniform-cost search, independent byte weights, bounds len(block)+1 / peak+1, %d search nodes) with rules on must not "
+        "exceed the figure with rules off under -size" % (GATE_MAX_LEN, GATE_NODE_CAP)))
     unreached = [u for u in universe if u not in fired and not any(u in f or f in u for f in fired)]
     for name, blk in sorted(fired.items())[:12]:
         chk.sample({"rule": name, "first_block": blk})
